@@ -329,6 +329,26 @@ def masked_index_spaces(rep, M, rid):
                                                                                                  and v.func.id in ("len", "range", "int", "sum", "min", "max"))
                         if countlike:
                             todo.append(v)
+        # the size guard for cells made of simulation-cell vectors applies when *both* chosen spans are periodic cell vectors: `<count> == 2`
+        sz = [t for t in ast.walk(fn) if isinstance(t, ast.If) and any(isinstance(x, ast.Attribute) and x.attr == "max_2d_single_cell_size" for x in ast.walk(t.test))]
+        for t in sz:
+            members = []
+            for c, pol in flp.cfg.branch_conditions(flp.node_of(t)):
+                tt = getattr(c, "test", None)
+                if pol and isinstance(tt, ast.BoolOp) and isinstance(tt.op, ast.And):      # nested ifs are read as a conjunction by the model
+                    members += [(m, True, c) for m in tt.values]
+                elif tt is not None:
+                    members.append((tt, pol, c))
+            conds = [(m, pol, c) for m, pol, c in members if isinstance(m, ast.Compare) and isinstance(m.left, ast.Name) and m.left.id == nsel
+                     and isinstance(m.comparators[0], ast.Constant) and m.comparators[0].value == 2]
+            if not conds:
+                continue
+            m, pol, c = conds[-1]
+            if (isinstance(m.ops[0], ast.Eq) and pol) or (isinstance(m.ops[0], ast.NotEq) and not pol):
+                rep.ok(rid, f"_find_proto_cell: the size guard of cells made of simulation-cell vectors runs under `{norm(m)}`")
+            else:
+                rep.violation(rid, f"_find_proto_cell: `{norm(m)}`", "the size guard for 2D cells made of simulation-cell vectors runs when the chosen spans are *not* both "
+                              "cell vectors, and is skipped when they are: a slab with its adsorbates is accepted as one 2D unit cell", M.where(fq, c))
         bad = [c for c in lens if norm(c.args[0]) in unfiltered]
         good = [c for c in lens if norm(c.args[0]) == W]
         if bad:
